@@ -126,6 +126,10 @@ _inp("C29", "exhaustive enumeration of small vector worlds x vector-only / hybri
   "Vector field of dimension 1-3 (quick: 2) x {Cosine, L2} x every sequence of <= 3 (thorough: multisets of 4) document shapes incl. zero vector and missing vector x every segment layout x optional deletion; vector-only requests over (k, limit) x {plain, filter, vector_filter, boost}, hybrid requests (object and legacy tuple) with alpha 0 / 0.5 / 1, two-clause should, wrong-dimension query and document: hits only live documents with a vector passing the filters, vector_score = exact similarity x boost, score = alpha*bm25 + (1-alpha)*vector_score, first min(k, limit) hits = exact nearest neighbours.",
   "Trusted: brute-force oracle; every segment holds < 16 vectors so HNSW must be exact; multi-clause blend and hybrid hits without a vector are not judged (docs silent).")
 
+_inp("C11", "exhaustive enumeration of tie-heavy worlds x segment layouts x sort plans x page sizes x executions, paged walks against one covering request, then cursor misuse",
+  "Every multiset of 4 (quick) / 3-6 (thorough) tie-prone document shapes x every segment layout, plus 22/24-document tie worlds over 1-4 segments x 3 queries x 8 sort plans x {bm25, wand, bmw} x page size 1..7: concatenated pages equal the single covering response (ids, order, scores), no duplicates, last page without next_cursor, total_hits_estimate <= true matches (== for bm25); every cursor is rejected under every other sort plan, after a commit that adds a segment and after compaction.",
+  "Trusted: the covering request as reference (ordering itself is C10's concern); cursors re-used after a delete-only commit are not required to be rejected.")
+
 NOT_YET = "check not built yet in this session (see DESIGN.md §3 for the planned engine); no verdict is claimed"
 NOT_APPLICABLE = {}
 
